@@ -23,12 +23,33 @@ func fbb.parseB2Proposal(line, prop) (err)
   requires prop: prop != nil
   ensures nonneg-sizes: err == nil ==> prop.compressedSize >= 0 && prop.size >= 0
 
+# C05 answer alphabet (docs/F6FBB-B2F/protocole.html): + Y accept, - N already received,
+# R rejected, = L later, H accepted-but-held (the message IS transferred), ! A accept from
+# an offset; upper and lower case.  After each answer character c the proposal it answers
+# carries AnsOf(c); answers are applied to the proposals in order, one each.
+pred IsAccept(c) := c == 'Y' || c == 'y' || c == '+'
+pred IsReject(c) := c == 'N' || c == 'n' || c == 'R' || c == 'r' || c == '-'
+pred IsLater(c) := c == 'L' || c == 'l' || c == '='
+pred IsHeld(c) := c == 'H' || c == 'h'
+pred IsOffset(c) := c == 'A' || c == 'a' || c == '!'
+
 func fbb.parseProposalAnswer(str, props, l) (err)
-  props C03
+  props C03 C05
   requires props: forall k :: 0 <= k && k < len(props) ==> props[k] != nil
+  loop 0 invariant idx: 0 <= i
+  loop 0 invariant alphabet [C05]: i > 0 ==> i <= len(props) && (IsAccept(c) || IsOffset(c) ==> props[i-1].answer == '+') && (IsReject(c) ==> props[i-1].answer == '-') && (IsLater(c) ==> props[i-1].answer == '=')
+  loop 0 invariant held-is-accepted [C05]: i > 0 && IsHeld(c) ==> i <= len(props) && props[i-1].answer == '+'
+  loop 0 invariant known-char [C05]: i > 0 ==> IsAccept(c) || IsOffset(c) || IsReject(c) || IsLater(c) || IsHeld(c)
+  loop 0 invariant offset-range [C05]: i > 0 && IsOffset(c) ==> i <= len(props) && 0 <= props[i-1].offset && props[i-1].offset <= ProtocolOffsetSizeLimit
+  at return#2 requires rejects-only-unknown [C05]: !(IsAccept(c) || IsOffset(c) || IsReject(c) || IsLater(c) || IsHeld(c))
+  loop 1 invariant digits: 0 <= idx && idx <= len(str) && forall k :: 0 <= k && k < idx ==> '0' <= str[k] && str[k] <= '9'
 
 func fbb.parseFW(line) (addrs, err)
-  props C03
+  props C03 C05
+  # one address per blank-separated field of the line: never more than the line is long
+  allocbound len(line) + 1
+  ensures count: err == nil ==> len(addrs) <= len(line) + 1
+  loop 0 invariant n: len(addrs) == $idx + 1
 
 func fbb.parsePM(str) (pm, err)
   props C03
@@ -214,12 +235,22 @@ func fbb.(*Message).Validate(m) (err)
   trusted
   pure
 
-# the proposal for a message (compression is C06's subject)
+# a proposal made from a queued message carries all of its compressed data (compression
+# itself is C06's subject): compressedSize is the length of the data that will be sent
+pred Complete(p) := p.compressedSize == len(p.compressedData)
+
+func fbb.NewProposal(MID, title, code, data) (prop)
+  props C01 C02 C05 C17
+  # panic(err) when closing the compressor fails: it writes to an in-memory bytes.Buffer,
+  # whose Write never fails (assumption A-BUFWRITE)
+  allowpanic true
+  modifies foreign, type lzhuf.Writer, type lzhuf.lzhuf
+  ensures fresh: prop != nil && Complete(prop) && same(prop.mid, MID) && prop.code == code && prop.size == len(data) && prop.answer == 0 && prop.offset == 0 && len(prop.title) > 0
+
 func fbb.(*Message).Proposal(m, code) (p, err)
-  props C09
-  trusted
-  modifies foreign
-  ensures nonnil: p != nil
+  props C01 C02 C05 C09 C17
+  modifies foreign, type lzhuf.Writer, type lzhuf.lzhuf
+  ensures ok: err == nil ==> p != nil && Complete(p) && p.code == code && p.answer == 0 && p.offset == 0
 
 func fbb.(*WordDecoder).DecodeHeader(d, header) (s, err)
   props C09
@@ -272,6 +303,8 @@ func fbb.(*Proposal).Message(p) (m, err)
 func fbb.(*Message).ReadFrom(m, r) (err)
   props C03 C09
   requires reader: r != nil
+  # one *File per "File:" header line actually received (never a number the remote declares)
+  allocbound mimeBytes(m.Header.$ref)
 
 # C04 block verdict: nil is returned only if the running checksum including the
 # checksum byte is zero, the payload length equals the proposed compressed size,
@@ -424,7 +457,7 @@ ghost var gXferErr error
 func fbb.(*Session).sendOutbound(s, rw, outbound) (sent, err)
   props C03 C01 C05 C02
   requires sess: SessOK(s) && rw != nil && s.h != nil
-  requires props: forall k :: 0 <= k && k < len(outbound) ==> outbound[k] != nil
+  requires props: forall k :: 0 <= k && k < len(outbound) ==> outbound[k] != nil && Complete(outbound[k])
   call fmt.Sprintf#0 requires proposal-line: $0 == "F%c %s %s %d %d %d" && len($1) == 6 && unbox($1[0]) == prop.code && same(unbox($1[1]), prop.msgType) && same(unbox($1[2]), prop.mid) && unbox($1[3]) == prop.size && unbox($1[4]) == prop.compressedSize && unbox($1[5]) == 0
   call fmt.Fprintf#0 requires line-cr: $1 == "%s\r" && len($2) == 1 && same(unbox($2[0]), sp)
   call fmt.Fprintf#0 set gWireSum := gWireSum + BSum(sp, len(sp)) + 13
@@ -436,10 +469,10 @@ func fbb.(*Session).sendOutbound(s, rw, outbound) (sent, err)
   call fbb.(*Session).writeCompressed set gXferErr := $r0
   at mapupdate#1 requires rejected: same($1, prop.mid) && prop.answer == '-' && $2
   at mapupdate#2 requires transferred: same($1, prop.mid) && prop.answer == '+' && !$2 && gXferProp == prop && gXferErr == nil
-  loop 0 invariant block-size: len(outbound) <= 5 && checksum == gWireSum && (forall k :: 0 <= k && k < len(outbound) ==> outbound[k] != nil) && sent != nil
+  loop 0 invariant block-size: len(outbound) <= 5 && checksum == gWireSum && (forall k :: 0 <= k && k < len(outbound) ==> outbound[k] != nil && Complete(outbound[k])) && sent != nil
   loop 1 invariant bytes: 0 <= i && i <= len(sp) && checksum == entry(checksum) + BSum(sp, i)
-  loop 2 invariant block: len(outbound) <= 5 && (forall k :: 0 <= k && k < len(outbound) ==> outbound[k] != nil) && sent != nil
-  loop 3 invariant block: (forall k :: 0 <= k && k < len(outbound) ==> outbound[k] != nil) && sent != nil
+  loop 2 invariant block: len(outbound) <= 5 && (forall k :: 0 <= k && k < len(outbound) ==> outbound[k] != nil && Complete(outbound[k])) && sent != nil
+  loop 3 invariant block: (forall k :: 0 <= k && k < len(outbound) ==> outbound[k] != nil && Complete(outbound[k])) && sent != nil
   ensures map: sent != nil
 
 # handleOutbound (C02 confirm-before-sent, C01 sent-report, C05 FF/FQ)
@@ -472,9 +505,9 @@ func fbb.(*Session).outbound(s) (props)
   allocbound len(msgs)
   call fbb.MBoxHandler.GetOutbound requires fw-list: same($1, s.remoteFW)
   call fbb.sortProposals requires all: len($0) == len(props)
-  ensures elems: forall k :: 0 <= k && k < len(props) ==> props[k] != nil
+  ensures elems: forall k :: 0 <= k && k < len(props) ==> props[k] != nil && Complete(props[k])
   ensures no-handler: s.h == nil ==> len(props) == 0
-  loop 0 invariant elems: (forall k :: 0 <= k && k < len(props) ==> props[k] != nil) && (forall k :: 0 <= k && k < len(msgs) ==> msgs[k] != nil)
+  loop 0 invariant elems: (forall k :: 0 <= k && k < len(props) ==> props[k] != nil && Complete(props[k])) && (forall k :: 0 <= k && k < len(msgs) ==> msgs[k] != nil)
 
 # sort is a permutation of the slice (sort.Sort / sort.Stable contract)
 func fbb.sortProposals(props) ()
@@ -482,4 +515,5 @@ func fbb.sortProposals(props) ()
   trusted
   modifies props
   ensures permutation-keeps-nonnil: (forall k :: 0 <= k && k < len(props) ==> old(props[k]) != nil) ==> (forall k :: 0 <= k && k < len(props) ==> props[k] != nil)
+  ensures permutation-keeps-complete: (forall k :: 0 <= k && k < len(props) ==> old(props[k]) != nil && Complete(old(props[k]))) ==> (forall k :: 0 <= k && k < len(props) ==> props[k] != nil && Complete(props[k]))
 @*/
